@@ -293,6 +293,13 @@ func c06Doc(g *gen.G, d model.Doc, msgpackClient bool) model.Doc {
 			// (positive fixint / int8 / uint8 / uint16 / int16), which is what
 			// the decoder hands to the shard as int8, uint8, uint16, int16
 			switch {
+			case g.R.IntN(8) == 0:
+				// wide values: 32 and 64 bit widths, both sides of 2^31, 2^32 and 2^63
+				wide := []any{int32(math.MinInt32), int32(math.MaxInt32), uint32(math.MaxInt32) + 1, uint32(math.MaxUint32),
+					int64(math.MinInt64), int64(math.MinInt32) - 1, int64(math.MaxUint32) + 1, int64(math.MaxInt64), int64(math.MaxInt64) - 1,
+					uint64(math.MaxInt64), uint64(math.MaxInt64) + 1, uint64(math.MaxInt64) + 2, uint64(math.MaxUint64), uint64(math.MaxUint64) - 1,
+					uint64(1) << 63, uint64(3) << 62, int64(-1), uint64(0)}
+				d["rank"] = wide[g.R.IntN(len(wide))]
 			case v >= -128 && v < 128:
 				d["rank"] = int8(v)
 			case v >= 128 && v < 256:
@@ -320,10 +327,8 @@ func c06Doc(g *gen.G, d model.Doc, msgpackClient bool) model.Doc {
 
 // cmpSortVals orders two present values of one sort key by the documented meaning.
 func cmpSortVals(a, b any) int {
-	if ai, ok := model.AsInt(a); ok {
-		if bi, ok := model.AsInt(b); ok {
-			return cmpI(ai, bi)
-		}
+	if c, ok := model.CmpInteger(a, b); ok {
+		return c
 	}
 	if af, ok := model.AsFloat(a); ok {
 		if bf, ok := model.AsFloat(b); ok {
